@@ -423,21 +423,29 @@ def positional (s : St) (dn iname : String) (es : List XExpr) : M St := do
 
 def assignDefName (w : Nat) : String := "SDN_VERILOG_ASSIGNMENT_" ++ toString w
 
-def ensureAssignDef (s : St) (w : Nat) : St :=
+/-- the assignment definition of width `w` (library `SDN_VERILOG_ASSIGNMENT`).  The table is keyed by name: a module of
+    that very name declared by the file itself lives in another library of the real netlist (two definitions of one
+    name) — not representable here, the model refuses it. -/
+def ensureAssignDef (s : St) (w : Nat) : M St :=
   match s.find (assignDefName w) with
-  | some _ => s
+  | some d =>
+    if d.lib == some "SDN_VERILOG_ASSIGNMENT" then pure s
+    else throw "unsupported: a module of the file is named like an assignment definition"
   | none =>
     let i : Port := ⟨some "i", .inp, 0, true, List.replicate w none, none⟩
     let o : Port := ⟨some "o", .out, 0, true, List.replicate w none, none⟩
-    { s with defs := s.defs ++ [⟨assignDefName w, some "SDN_VERILOG_ASSIGNMENT", false, [], none, [i, o], [], []⟩] }
+    pure { s with defs := s.defs ++ [⟨assignDefName w, some "SDN_VERILOG_ASSIGNMENT", false, [], none, [i, o], [], []⟩] }
 
 def assignStmt (s : St) (dn : String) (l r : XAtom) : M St := do
   let (s, lw) ← evalAtomE s dn l
   let (s, rw) ← evalAtomE s dn r
   let w := min lw.length rw.length
-  let s := ensureAssignDef s w
+  let s ← ensureAssignDef s w
   let (o, i) := connectAssign lw rw
   let name := assignDefName w ++ "_" ++ toString s.acount
+  let d ← getDef s dn
+  -- `create_child(name=…)`: a child of that name already there is a naming conflict (ValueError)
+  if (instIdx d name).isSome then throw "value: instance name conflict" else
   let inst : Inst := ⟨name, assignDefName w, [], none, [i, o]⟩
   let s := { s with acount := s.acount + 1 }
   pure (s.upd dn (fun d => { d with insts := d.insts ++ [inst] }))
